@@ -746,7 +746,7 @@ class hasseb(hid):
                 elif self._response[0] == self._OK:
                     response = command.response(dali.frame.BackwardFrame(self._response[1]))
                 elif self._response[0] == self._INVALID_ANSWER:
-                    response = command._response(dali.frame.BackwardFrameError(
+                    response = command.response(dali.frame.BackwardFrameError(
                         self._response[1]))
                 else:
                     self._log.debug("Unknown response code %x", self._response[0])
